@@ -1,4 +1,105 @@
-import Lm.Core.Machine
+import Lm.Inv.CoreSafe
+import Lm.Inv.CoreGuards
+/-!
+# C01 — Module lifecycle follows the documented state machine; callbacks pair up
+
+Theorems about `Lm.Core` (the model of ctx.c/mod.c/ps.c/evts.c/src.c after the fix commits), which the
+correspondence check ties to the compiled library.  `run {} ops` ranges over **every** finite sequence
+of script lines: API calls issued from outside the loop or re-entrantly from inside
+start/stop/eval/event callbacks at any nesting depth, with every combination of callback return values.
+-/
 namespace Lm.Props.C01
-theorem C01_placeholder : True := trivial
+open Lm.Core
+
+/-- clause (f): in every reachable configuration — also in the middle of callbacks — the number of
+running modules reported by the context equals the number of its modules in RUNNING state -/
+theorem C01_running_counter (ops : List Op) (c : Ctx) (h : (run {} ops).st.ctx = some c) :
+    c.running = ((run {} ops).st.mods.filter (fun md => md.state == .running && md.ctxId == c.id)).length := by
+  have := (reach_inv ops).1.run c h
+  rw [this, runCount, St.sigs, List.countP_map, List.countP_eq_length_filter]
+  rfl
+
+/-- a module that left its context's table (deregistration in progress or done) is STOPPED or a ZOMBIE:
+in particular it is never RUNNING, never PAUSED and never evaluated/started again -/
+theorem C01_deregistered_never_runs (ops : List Op) (m : ModId) (md : Mod)
+    (h : (run {} ops).st.mods[m]? = some md) (hout : md.inCtx = false) : md.state = .stopped ∨ md.state = .zombie := by
+  have := (reach_inv ops).1.out m md.sig (by rw [sigs_getElem?, h]; rfl) hout
+  exact this
+
+/-- the same invariants hold for the state in which every suspended library activation will be resumed:
+whatever a callback does, the library code continues from a consistent state -/
+theorem C01_consistent_at_every_callback_boundary (ops : List Op) : CfgOK Inv Mono (run {} ops) := reach_inv ops
+
+/-- clause (b), m_mod_start: in any state other than IDLE / STOPPED the call fails and changes nothing -/
+theorem C01_start_refused (s : St) (m : ModId) (md : Mod) (hm : s.mods[m]? = some md)
+    (hs : md.state ≠ .idle ∧ md.state ≠ .stopped) : ∃ code : Int, code < 0 ∧ Refuses (apiStart m) s code := by
+  unfold Refuses apiStart
+  simp only [runP_getSt_bind]
+  cases hma : modAssert s m with
+  | some e => exact ⟨e, modAssert_neg s m e hma, by simp⟩
+  | none =>
+    refine ⟨EACCES, by decide, ?_⟩
+    have : (md.state == MState.idle || md.state == MState.stopped) = false := by
+      simp [hs.1, hs.2]
+    simp [hm, this]
+
+/-- clause (b), m_mod_pause / m_mod_resume / m_mod_stop outside their states -/
+theorem C01_pause_refused (s : St) (m : ModId) (md : Mod) (hm : s.mods[m]? = some md) (hs : md.state ≠ .running) :
+    ∃ code : Int, code < 0 ∧ Refuses (apiPause m) s code :=
+  guarded_refuses_state s m md _ _ _ _ hm (by simp [hs])
+
+theorem C01_resume_refused (s : St) (m : ModId) (md : Mod) (hm : s.mods[m]? = some md) (hs : md.state ≠ .paused) :
+    ∃ code : Int, code < 0 ∧ Refuses (apiResume m) s code :=
+  guarded_refuses_state s m md _ _ _ _ hm (by simp [hs])
+
+theorem C01_stop_refused (s : St) (m : ModId) (md : Mod) (hm : s.mods[m]? = some md)
+    (hs : md.state ≠ .running ∧ md.state ≠ .paused) : ∃ code : Int, code < 0 ∧ Refuses (apiStop m) s code :=
+  guarded_refuses_state s m md _ _ _ _ hm (by simp [hs.1, hs.2])
+
+/-- clause (a), ZOMBIE is final: every state-changing call on a ZOMBIE fails with -EACCES and changes nothing -/
+theorem C01_zombie_refuses_everything (s : St) (m : ModId) (md : Mod) (hm : s.mods[m]? = some md) (hz : md.state = .zombie) :
+    Refuses (apiStart m) s EACCES ∧ Refuses (apiPause m) s EACCES ∧ Refuses (apiResume m) s EACCES ∧
+    Refuses (apiStop m) s EACCES ∧ Refuses (modDeregisterP m) s EACCES := by
+  refine ⟨?_, guarded_refuses_zombie s m md _ _ _ _ hm hz, guarded_refuses_zombie s m md _ _ _ _ hm hz,
+    guarded_refuses_zombie s m md _ _ _ _ hm hz, ?_⟩
+  · simp [Refuses, apiStart, modAssert, hm, hz]
+  · simp [Refuses, modDeregisterP, modDeregCore, modAssert, hm, hz]
+
+/-- pause and resume run neither the start nor the stop callback: the pause program contains no callback at
+all — it returns without suspending, whatever the state -/
+theorem C01_pause_runs_no_callback (s : St) (m : ModId) : ∃ s' code, runP (apiPause m) s = (s', .inl code) := by
+  unfold apiPause guarded
+  simp only [runP_getSt_bind]
+  cases modAssert s m with
+  | some e => exact ⟨_, _, rfl⟩
+  | none =>
+    simp only
+    cases s.mods[m]? with
+    | none => exact ⟨_, _, rfl⟩
+    | some md =>
+      simp only
+      split
+      · exact ⟨_, _, rfl⟩
+      · split
+        · exact ⟨_, _, rfl⟩
+        · simp only [if_true]
+          cases consumeToken s m with
+          | none => exact ⟨_, _, rfl⟩
+          | some s' =>
+            simp only [runP_setSt_bind, stopP, runP_modify_bind, runP_getSt_bind]
+            simp only [Bool.false_eq_true, if_false, pure_bind', runP_modify_bind]
+            split <;> exact ⟨_, _, rfl⟩
+
+/-! ### Non-vacuity: a history with nesting — a start hook that starts another module, a refusing start,
+a deregistration from inside a handler — reaches non-trivial states that satisfy the invariants -/
+
+def demo : List Op :=
+  [.ctxReg false, .reg "h0" "A" 5 {} { start := true, stop := true }, .reg "h1" "B" 9 {} { start := true },
+   .start 0, .start 1, .ret false, .ret true, .pause 0, .resume 0, .dereg 0, .start 0, .ret true]
+
+example : ((run {} demo).st.mods.map (·.state)) = [.zombie, .stopped] := by decide
+example : ((run {} demo).st.ctx.map (·.running)) = some 0 := by decide
+example : (run {} (demo.take 5)).stack.length = 2 := by decide
+example : ((run {} (demo.take 9)).st.ctx.map (·.running)) = some 1 := by decide
+
 end Lm.Props.C01
